@@ -405,6 +405,13 @@ theorem exFinal_terminal : ∀ a, act exShape exFinal a = none := by
 example : 1 ≤ delivered exFinal 7 ∧ exRun.length ≤ mu exShape (init [7] exFaults) :=
   maximal_run_delivers exShape [7] exFaults (by decide) exRun exFinal exRun_final exFinal_terminal 7 (by simp)
 
+/-- a handler that emits two outputs per input (successor listed twice): the publish error on the first attempt hands
+    nothing on; after the redelivery both copies exist and both reach the sink -/
+example : exec (sys ⟨[[1, 1], [2]]⟩ [7] [⟨.pubErr, 0⟩]) (init [7] [⟨.pubErr, 0⟩])
+    [.publishSource 0, .deliver 0, .fault 0 0, .deliver 0, .publishOk 0, .ack 0, .deliver 0, .publishOk 0, .ack 0,
+     .deliver 0, .publishOk 0, .ack 0, .sink 0, .sink 0] =
+    some { toks := [], faults := [], srcs := [], pub := [7], sink := [7, 7] } ∧ (⟨[[1, 1], [2]]⟩ : Shape).WF := by decide
+
 /-- hypotheses of `ack_after_accept`: a reachable state with an enabled `ack` -/
 example : Reach (sys exShape [7] [])
       { toks := [⟨7, 0, .published⟩, ⟨7, 1, .pending⟩, ⟨7, 2, .pending⟩], faults := [], srcs := [], pub := [7], sink := [] } ∧
